@@ -453,7 +453,11 @@ pub fn final_roundtrip(c: &mut Case, real: &BinArchive, model: &RefArchive) {
         && model.text.keys().all(|k| !model.ptrs.contains_key(k) && !model.cstr.contains_key(k))
         && model.ptrs.keys().all(|k| !model.cstr.contains_key(k));
     if !in_domain {
+        // e.g. an annotated cell straddling the end after an unaligned truncate: what serialize
+        // returns is not specified, but it must return (Ok or Err) without panicking or touching
+        // memory it does not own (guard-mode canaries / sanitizer lanes watch)
         c.outcome("final_state_outside_c01_domain");
+        let _ = c.lib_stable("serialize (final state outside the domain)", || real.serialize().map_err(|e| e.to_string()));
         return;
     }
     match c.lib("serialize (final state)", || real.serialize()) {
